@@ -1662,8 +1662,12 @@ def h_range(eng, node, args, kwargs, env):
 
 def h_enumerate(eng, node, args, kwargs, env):
     it = eng.iterate(args[0], node) if args else None
+    st = args[1] if len(args) > 1 else kwargs.get("start")
+    s0 = eng.int_of(st) if st is not None else 0
+    if isinstance(it, list) and s0 is not None:
+        return Tup([Tup([Q(D0, Lin.const(i + s0)), x]) for i, x in enumerate(it)], True)
     if isinstance(it, list):
-        return Tup([Tup([Q(D0, Lin.const(i)), x]) for i, x in enumerate(it)], True)
+        return Seq(Tup([Q(D0), eng._elem(Tup(it), node) or Unk("empty")]))
     if it is None or isinstance(it, Unk):
         return Seq(Unk("enumerate"))
     return Seq(Tup([Q(D0), it]))
